@@ -8,7 +8,7 @@ def to_frac(x):
     """mpmath real -> Fraction (50 digits)"""
     return Fraction(mpmath.nstr(x, 45, strip_zeros=False)) if not isinstance(x, (int, Fraction)) else Fraction(x)
 
-def plin_matrix(res, m, outs, insyms, label, timeout_ms=120000):
+def plin_matrix(res, m, outs, insyms, label, timeout_ms=600000):
     """outs: list of DAG nodes/floats; insyms: list of symbol names.  Returns matrix rows (list of dict sym->Fraction, key 1 = constant term) after the
     solver has certified  forall x. out_k(x) == row_k . x   for every k; None (and a violation/inconclusive recorded) otherwise."""
     try:
